@@ -184,7 +184,7 @@ Section Construct.
     - exact construct_wf.
     - intros n a I. destruct (construct_node n a I) as [-> In_]. destruct (in_ids_label G n In_) as [x Ex].
       destruct (in_ids_label H n (proj1 (pw_ids _ _ PW n) In_)) as [y Ey]. exists x, y.
-      unfold its_node, side_tuple; simpl. rewrite Ex, Ey. auto.
+      unfold its_node, side_tuple, node_fit; simpl. rewrite Ex, Ey. repeat split; auto; lia.
     - intros u v x I. destruct (construct_edge_orders u v x I) as (Iu & Iv & Eg & Eh & _).
       repeat split; auto; apply construct_ids_in; assumption.
   Qed.
@@ -371,9 +371,9 @@ Section Centre.
       + apply forallb_forall. intros [[u v] x] I. destruct (rc_in_T0 u v x I) as [I0 _].
         destruct (wf_rc_nonneg T0 u v x (construct_wf G H PW) I0). simpl.
         apply andb_true_intro; split; apply Z.leb_le; assumption.
-    - intros n a I. destruct (rc_node n a I) as (In_ & -> & ->). destruct (in_ids_label G n In_) as [x Ex].
+    - intros n a I. destruct (rc_node n a I) as (In_ & E1 & E2). destruct (in_ids_label G n In_) as [x Ex].
       destruct (in_ids_label H n (proj1 (pw_ids _ _ PW n) In_)) as [y Ey]. exists x, y.
-      unfold side_tuple. rewrite Ex, Ey. auto.
+      unfold node_fit. rewrite E1, E2. unfold side_tuple. rewrite Ex, Ey. repeat split; auto; lia.
     - intros u v x I. destruct (proj2 (proj2 (proj2 SP)) u v x I) as [Iu Iv]. destruct (rc_in_T0 u v x I) as [I0 _].
       destruct (construct_edge_orders G H PW CG CH u v x I0) as (_ & _ & Eg & Eh & _). auto.
   Qed.
@@ -427,8 +427,8 @@ Section Invert.
     intros F. constructor.
     - apply invert_wf. exact (f_wf _ _ _ F).
     - intros n a I. rewrite invert_gnodes in I. apply in_map_iff in I. destruct I as ([k a0] & E & I). simpl in E. inversion E; subst.
-      destruct (f_nodes _ _ _ F n a0 I) as (x & y & Ex & Ey & Sx & Sy). exists y, x. unfold inv_node; simpl.
-      rewrite !sel_inv_tuple. auto.
+      destruct (f_nodes _ _ _ F n a0 I) as (x & y & Ex & Ey & E1 & E2 & E3 & E4 & E5 & E6). exists y, x.
+      unfold node_fit, inv_node; simpl. repeat split; auto; lia.
     - intros u v y I. destruct (invert_edge_inv t u v y I) as (x & Ix & _ & Eg & Eh & _).
       destruct (f_edges _ _ _ F u v x Ix) as (Iu & Iv & Egx & Ehx). rewrite !invert_ids.
       pose proof (order_in_nonneg A u v HA). pose proof (order_in_nonneg B u v HB). repeat split; auto; lia.
